@@ -1432,7 +1432,7 @@ Proof.
       cbn [fst snd] in *. subst. auto.
   - cbn [resolved]. apply IHv; auto.
   - cbn [resolved]. destruct sm; [apply IHv2|apply IHv1]; auto.
-  - cbn [resolved fst snd]. destruct (IHv p q E) as [A _]. split; auto.
+  - cbn [resolved]. apply IHv; auto.
   - cbn [resolved fst snd]. auto.
   - cbn [resolved fst snd]. destruct (IHv p q E) as [A _]. split; auto.
 Qed.
@@ -1642,8 +1642,8 @@ Proof.
   - cbn [render resolved pf fst snd] in *.
     specialize (IHv (sb_new (clone_id b)) p q E PF (Forall_nil _)).
     destruct (render false d v (sb_new (clone_id b)) p) as [nb p1]. cbn [fst snd] in *.
-    destruct IHv as [A [B _]]. unfold flatb in B. sb_simpl. cbn [flat flat_map app] in B.
-    split; [|split; [|exact E]].
+    destruct IHv as [A [B C]]. unfold flatb in B. sb_simpl. cbn [flat flat_map app] in B.
+    split; [|split; [|exact C]].
     + unfold append. sb_simpl. destruct (existsb _ (chunks nb)); sb_simpl.
       * apply Forall_app. split; auto. apply flush_io; auto.
       * apply Forall_app. split; auto.
